@@ -326,12 +326,16 @@ inductive Op where
   | flushPeriodic
 deriving DecidableEq, Repr
 
+/-- `maybeAcceptBlockHeader`: the parent must be known (as a block or as a header) and not known invalid -/
+def hdrParentOk (nd : Node A) (p : Chain) : Bool :=
+  if p ∈ keys nd.index then !(statusOf nd.index p).knownInvalid else decide (p ∈ nd.hdrs)
+
 def step (cfg : Cfg) (nd : Node A) : Op → Node A × Option Res
   | .deliver b p => let (nd, r) := deliver cfg nd b p; (nd, some r)
   | .header b p =>
     if (b :: p) ∈ keys nd.index then
       (nd, if (statusOf nd.index (b :: p)).knownInvalid then some .rej else none)
-    else if (p ∈ keys nd.index ∧ ¬ (statusOf nd.index p).knownInvalid) ∨ p ∈ nd.hdrs then
+    else if hdrParentOk nd p then
       ({ nd with hdrs := (b :: p) :: nd.hdrs }, none)
     else (nd, some .rej)
   | .flushReq => (flushRequired nd, none)
